@@ -997,6 +997,9 @@ func runEngineSchedule(reqs []engReq, funding [][]string, ameta [][]string, plan
 			if engWatchdogs >= 3 { // this process has met a protocol the scheduler does not predict: do not burn the full limit every time
 				limit = 300 * time.Millisecond
 			}
+			if engWatchdogs >= 12 { // … and it is not the machine: a dozen runs stalled (a whole check costs hours otherwise)
+				limit = 40 * time.Millisecond
+			}
 			select {
 			case e := <-s.arrive:
 				take(e)
